@@ -5,9 +5,9 @@ From Coq Require Import ZArith Bool Lia List.
 From C04 Require Import Model ProofsBase ProofsIntegral Redc.
 Local Open Scope Z_scope.
 
-Definition B := 65536.
+Local Notation B := 65536.
 Definition nim_ok (p : Z) : bool := ((p * mg_nim p + 1) mod B =? 0) && (0 <=? mg_nim p) && (mg_nim p <? B).
-Definition odd_moduli : list Z := map (fun i => 2 * Z.of_nat i + 1) (seq 1 20251).
+Definition odd_moduli : list Z := map (fun i => 2 * Z.of_nat i + 1) (seq 1 (Z.to_nat 20251)).
 Lemma nim_sweep : forallb nim_ok odd_moduli = true.
 Proof. vm_compute. reflexivity. Qed.
 Lemma nim_correct p : 3 <= p <= 40503 -> Z.odd p = true -> (p * mg_nim p + 1) mod B = 0 /\ 0 <= mg_nim p < B.
@@ -15,9 +15,9 @@ Proof.
   intros Hp Ho. pose proof nim_sweep as H. rewrite forallb_forall in H.
   assert (In p odd_moduli) as Hin.
   { unfold odd_moduli. apply in_map_iff. exists (Z.to_nat (p / 2)). split.
-    - rewrite Z2Nat.id by (apply Z.div_pos; lia). pose proof (Z.div_mod p 2 ltac:(lia)).
-      assert (p mod 2 = 1) by (rewrite Zmod_odd, Ho; reflexivity). lia.
-    - apply in_seq. assert (1 <= p / 2 <= 20251) by (split; [apply Z.div_le_lower_bound|apply Z.div_le_upper_bound]; lia). lia. }
+    - rewrite Z2Nat.id by (apply Z.div_pos; lia). pose proof (Z_div_mod_eq_full p 2) as H0.
+      assert (p mod 2 = 1) as H1 by (rewrite Zmod_odd, Ho; reflexivity). rewrite H1 in H0. symmetry; exact H0.
+    - apply in_seq. pose proof (Z_div_mod_eq_full p 2) as H0. pose proof (Z.mod_pos_bound p 2 ltac:(reflexivity)). lia. }
   specialize (H p Hin). unfold nim_ok in H. rewrite !andb_true_iff in H. destruct H as [[H1 H2] H3].
   apply Z.eqb_eq in H1. apply Z.leb_le in H2. apply Z.ltb_lt in H3. auto.
 Qed.
@@ -35,28 +35,28 @@ Section Mont.
   (* the machine redc is the integer REDC as long as c + (B-1) p fits 32 bits *)
   Lemma mg_redc_eq c : 0 <= c -> c + (B - 1) * p < 4294967296 -> mg_redc p c = redc_z B p (mg_nim p) c.
   Proof.
-    intros Hc Hb. destruct Hnim as [Hn1 Hn2]. unfold mg_redc, redc_z, redc_t, mfac. cbv zeta.
-    rewrite land_B by auto.
+    intros Hc Hb. pose proof (proj2 Hnim) as Hn2. unfold mg_redc, redc_z, redc_t, mfac, B16. cbv zeta.
+    rewrite land_B by lia.
     assert (0 <= c mod B < B) as Hcm by (apply Z.mod_pos_bound; reflexivity).
     assert (wrapu 32 (c mod B * mg_nim p) = c mod B * mg_nim p) as ->.
-    { apply wrapu_id; [lia|]. change (2 ^ 32) with 4294967296. unfold B in *. nia. }
-    rewrite land_B by (unfold B in *; nia).
+    { apply wrapu_id; [lia|]. change (2 ^ 32) with 4294967296. nia. }
+    rewrite land_B by (nia).
     assert (0 <= (c mod B * mg_nim p) mod B < B) as Hm by (apply Z.mod_pos_bound; reflexivity).
-    rewrite (wrapu_id 32 (_ * p)) by (try lia; change (2 ^ 32) with 4294967296; unfold B in *; nia).
-    rewrite wrapu_id by (try lia; change (2 ^ 32) with 4294967296; unfold B in *; nia).
+    rewrite (wrapu_id 32 (_ * p)) by (try lia; change (2 ^ 32) with 4294967296; nia).
+    rewrite wrapu_id by (try lia; change (2 ^ 32) with 4294967296; nia).
     replace ((c mod B * mg_nim p) mod B * p + c) with (c + (c mod B * mg_nim p) mod B * p) by ring.
     reflexivity.
   Qed.
   Lemma mg_redc_spec c : 0 <= c < p * p -> 0 <= mg_redc p c < p /\ mg_redc p c = (c * BI) mod p.
   Proof.
-    intros Hc. destruct Hnim as [Hn1 Hn2].
-    assert (c + (B - 1) * p < 4294967296) by (unfold B; nia).
+    intros Hc. pose proof (proj2 Hnim) as Hn2.
+    assert (c + (B - 1) * p < 4294967296) by nia.
     rewrite mg_redc_eq by lia.
-    rewrite (redc_z_spec B p (mg_nim p)) by (try reflexivity; try lia; try exact Hn1; unfold B; nia).
+    rewrite (redc_z_spec B p (mg_nim p)) by (try reflexivity; try exact (proj1 Hnim); try lia; nia).
     split; [apply Z.mod_pos_bound; lia | reflexivity].
   Qed.
   Lemma B_BI : eqm p (B * BI) 1.
-  Proof. destruct Hnim as [Hn1 Hn2]. apply (B_Binv_eqm B p (mg_nim p)); try reflexivity; try lia; exact Hn1. Qed.
+  Proof. apply (B_Binv_eqm B p (mg_nim p)); try reflexivity; try exact (proj1 Hnim); lia. Qed.
   Lemma B2p_eqm : eqm p (mg_B2p p) (B * B).
   Proof.
     unfold eqm, mg_B2p, mg_Bp, B16. pose proof (Z.mod_pos_bound 65536 p ltac:(lia)).
@@ -156,7 +156,7 @@ Section Mont.
           assert (Z.odd 65536 = true) by (rewrite Ek, Z.odd_mul, Hodd; destruct (Z.odd k) eqn:?; auto; exfalso;
             assert (k <> 1 /\ True) by (split; auto; intro; subst; lia); admit). discriminate.
         - symmetry. rewrite <- (Z.mod_small (p - 65536 mod p) p) by lia.
-          apply (cong_intro p _ _ (- (1 + 65536 / p) + 65536)); [lia|]. unfold B. pose proof (Z.div_mod 65536 p ltac:(lia)). nia. }
+          apply (cong_intro p _ _ (- (1 + 65536 / p) + 65536)); [lia|]. idtac. pose proof (Z.div_mod 65536 p ltac:(lia)). nia. }
       rewrite E2. rewrite (proj2 (mg_roundtrip (p - 1) ltac:(lia))). split; [lia|]. apply (cong_intro p _ _ 1); lia.
   Admitted.
 End Mont.
